@@ -36,7 +36,10 @@ PROBLEMS = [("forest", dict(S=4, r1=4.0, r2=2.0, p=0.1)),
             ("de_moor", dict(max_order_quantity=2, max_demand=4, max_useful_life=2, lead_time=1)),
             ("mirjalili", dict(max_useful_life=2, max_order_quantity=2, max_demand=3,
                                useful_life_at_arrival_distribution_c_0=[1.0],
-                               useful_life_at_arrival_distribution_c_1=[0.5]))]
+                               useful_life_at_arrival_distribution_c_1=[0.5])),
+            # documented boundary values of a probability parameter
+            ("hendrix", dict(max_useful_life=1, max_order_quantity_a=2, max_order_quantity_b=2, substitution_probability=1.0)),
+            ("hendrix", dict(max_useful_life=1, max_order_quantity_a=2, max_order_quantity_b=1, substitution_probability=0.0))]
 
 _UP = float(np.nextafter(1.0, 2.0))
 _DOWN = float(np.nextafter(1.0, 0.0))
@@ -177,7 +180,8 @@ def _routes(case):
         # route D: a configuration object REUSED from another run of a parameter sweep (its nested problem
         # section still describes the other instance) together with this problem instance: the instance wins
         other = dict(case["pparams"])
-        other.update({"forest": dict(r1=7.5, p=0.3), "de_moor": dict(shortage_cost=9.0), "mirjalili": dict(shortage_cost=11.0)}[case["pname"]])
+        other.update({"forest": dict(r1=7.5, p=0.3), "de_moor": dict(shortage_cost=9.0), "mirjalili": dict(shortage_cost=11.0),
+                      "hendrix": dict(sales_price_a=2.5)}[case["pname"]])
         po = target.call("construct sweep-neighbour problem", shipped.make, case["pname"], other)
         cfg_d = target.call(f"build config: {where}", CFG[sv], problem=po.config, checkpoint_dir=os.path.join(tmp, "d"), **ck, **kw)
         pd = target.call("construct problem", shipped.make, case["pname"], case["pparams"])
